@@ -32,6 +32,11 @@ CHECKS = {
          "Accepted => recovered APDU = protected APDU, counters in step, parity right; altered => rejected; wrong parity => ERR_BAD_LOGIC (replay detection not claimed). Certificates validate exactly when signature, names and validity periods line up; every single-octet alteration of sampled certificates / containers / protected APDUs is rejected; containers open only with the right password.",
          "Trusted: TLC, the model of btok.h / bpki.h, real bign signatures (tied to the standard by C02), the C driver.",
          "DESIGN.md section 4, C17"),
+ "C05": ("exploration",
+         "TLA+ big-natural and GF(2)[x] libraries (spec/lib/BigNat.tla, GF2Poly.tla) and one line of mathematics per public function of word / ww / zz / zm-qr / pp / gf2 (spec/ref/ZZ.tla, WW.tla, PP.tla, WordOps.tla), anchored by 138 TLC-evaluated identities; TLC recomputes every recorded call of the real functions (Trace_Arith), both editions of every SAFE/FAST pair called by name, in the 64- and 32-bit word builds",
+         "157 functions on enumerated structure: operand lengths 0..21 words crossing every algorithm switch, boundary-alphabet words, multiples of the modulus with quotients drawn from the boundary alphabet, Knuth-D over-estimate cases, 17 modulus classes reaching every reduction strategy of zmCreate, documented aliasing patterns; all 16-bit helpers exhaustively. Values AND carries/borrows/flags are compared; modular results must be fully reduced.",
+         "Trusted: TLC, the header formulas as transcribed (anchored), the C driver. Longer operands are a seeded subset of the enumerated classes; wwNAF / ppMinPolyMod / random sampling functions have no specification.",
+         "DESIGN.md section 4, C05"),
  "C07": ("exploration",
          "resource monitor spec/mon/Regions.tla (TLC trace validation of region / abort events) over the enumerated replay suites executed in exact-size ASan+UBSan+assert builds for 64- and 32-bit words; sensor = AddressSanitizer/UBSan/utilAssert (thorough: + valgrind memcheck)",
          "Memory safety is not decided by a TLA+ model: the specification family contributes the systematic behaviour space (all lengths / levels / alphabets / fragmentings / overlaps that the functional specs enumerate) and the region monitor; the verdict comes from the sanitizers on executions where every state, stack, blob and caller buffer has exactly the documented size.",
